@@ -277,6 +277,50 @@ T = {
         "an event record larger than 8 KiB whose length is not a multiple of 8192",
         [],
         "NOT caught: needs a payload of more than 8192 bytes, the check's bound is 4 content bytes.  Outside the stated bounds"),
+    # ---- round 4 (server request handlers, merge replay, database vault mirror, open path)
+    "C07-server-rollback-skipped-when-contains": (
+        "C07", "server_helpers::event_patch rolls the rewind back only for Conflict { contains: None } (crates/storage/server/src/server_helpers.rs)",
+        "a rewind that removes records, with a checkpoint that is the head of a strictly shorter prefix of the rewound log (stale or forged, or byte-identical events)",
+        ["C07 server part: conflict => file / tree / restart state differ from before"],
+        "caught by the server part of C07, which was built in the same round (event_patch was outside before); needs the 3-record scenario of the quick tier"),
+    "C07-patch-checked-empty-log-accepts": (
+        "C07", "FileSystemEventLog::patch_checked treats a log without commits as Comparison::Equal (crates/filesystem/src/event_log.rs)",
+        "a log with zero commits (file event log before the first upload) and any non-default checkpoint",
+        ["C07 file-system part: patch applied although the checkpoint is not the head of this log (k = 0 scenario)"],
+        "the k = 0 patch_checked scenario was added for it (an error on an empty log is now judged as a refusal that must change nothing)"),
+    "C20-archive-kind-decrement": (
+        "C20", "DocumentCount::remove folded into a helper that lost the !is_archived guard of the kind counter (crates/search/src/search.rs)",
+        "an archive folder, a document leaving it while another non-archived document of the same kind exists",
+        ["C20 per-kind counters differ from a recount"], "caught at first run"),
+    "C20-merge-skip-reindex-same-text": (
+        "C20", "FolderMerge::merge keeps the old index document when label/tags/comment/websites are unchanged (crates/storage/client/src/folder_sync.rs)",
+        "an UpdateSecret received through a merge that changes only the favourite flag (or kind) of a secret",
+        ["C20 merge replay: a document does not carry its secret's current kind / tags / favourite flag"],
+        "MISSED at first (folder_sync.rs was outside; then every update carried a new label; then HashSet == was unmodelled -> "
+        "UNCOVERED): the merge-replay check, a same-or-new label choice for updates, the document-attribute obligation and a set "
+        "equality model were added; caught"),
+    "C02-merge-skips-recreated-secret": (
+        "C02", "FolderMerge::merge skips every event of an id that is created and later deleted in the same patch (crates/storage/client/src/folder_sync.rs)",
+        "one merged patch in which an id is created, deleted and created again",
+        ["C02 merge replay: the served folder differs from the replay of its log (create.delete.create)"],
+        "caught by the merge-replay check built in the same round (folder_sync.rs was outside before); needs the three-event slice of the quick tier"),
+    "C02-db-replace-vault-skips-header": (
+        "C02", "VaultDatabaseWriter::replace_vault returns early when the (id, commit) sequence of the secrets is unchanged (crates/database/src/vault_writer.rs)",
+        "database backend, a force merge whose replacement history has the same secrets but different name / flags / description",
+        [], "NOT CAUGHT: the sqlite vault mirror (folders / secrets tables) is outside every check; only the event tables are modelled"),
+    "C13-db-replace-all-two-transactions": (
+        "C13", "DatabaseEventLog::replace_all_events = clear() then insert_records() in two transactions (crates/database/src/event_log.rs)",
+        "a crash (or insert error) after the delete committed and before the insert commits",
+        ["C13 database part: crash before the second durability point: the log equals neither before nor after"], "caught at first run"),
+    "C13-folder-open-skips-reinit-of-empty-log": (
+        "C13", "Folder::from_path decides needs_init from the existence of the log file instead of the loaded tree (crates/backend/src/folder.rs)",
+        "a crash between clear() and apply_records() of create_folder_entry(reset_events = true): log file with only its header, vault with content",
+        [], "NOT CAUGHT: the folder open path (vault -> events re-initialisation) and multi-file operations are outside C13, which covers the event log's own operations"),
+    "C14-link-url-validated-on-decode": (
+        "C14", "Secret::Link decode parses the url as url::Url and fails otherwise; encode unchanged (crates/vault/src/encoding/secret.rs)",
+        "a Link secret whose url text is not an absolute URL (no scheme, relative path, empty)",
+        [], "NOT CAUGHT: the round-trip domain of C14 is the image of the decoder (v1 = decode(b)), so a value the encoder accepts but the "
+            "decoder refuses is never generated; the url parser is an opaque accepted/rejected model. Encode-first generation of Secret values is not built"),
 }
 
 
